@@ -131,11 +131,15 @@ type PVal struct {
 // kept (with their own labels rendered flat).
 func Flat(v any) string {
 	var b strings.Builder
-	flat(&b, v)
+	flat(&b, v, 0)
 	return b.String()
 }
 
-func flat(b *strings.Builder, v any) {
+func flat(b *strings.Builder, v any, depth int) {
+	if depth > maxDepth || b.Len() > 1<<16 {
+		b.WriteString("<too deep>")
+		return
+	}
 	switch v := v.(type) {
 	case nil:
 	case []byte:
@@ -144,7 +148,7 @@ func flat(b *strings.Builder, v any) {
 		b.WriteString("S" + strconv.Quote(v))
 	case []any:
 		for _, x := range v {
-			flat(b, x)
+			flat(b, x, depth+1)
 		}
 	case *PVal:
 		fmt.Fprintf(b, "<P%d %q@%d", v.ID, v.Text, v.Off)
@@ -167,11 +171,19 @@ func (l *CloneList) Clone() any {
 // Canon renders a parse value canonically.
 func Canon(v any) string {
 	var b strings.Builder
-	canon(&b, v)
+	canon(&b, v, 0)
 	return b.String()
 }
 
-func canon(b *strings.Builder, v any) {
+// maxDepth guards against cyclic values (a corrupted parser can return a
+// slice that contains itself).
+const maxDepth = 64
+
+func canon(b *strings.Builder, v any, depth int) {
+	if depth > maxDepth || b.Len() > 1<<16 {
+		b.WriteString("<too deep>")
+		return
+	}
 	switch v := v.(type) {
 	case nil:
 		b.WriteString("nil")
@@ -187,7 +199,7 @@ func canon(b *strings.Builder, v any) {
 			if i > 0 {
 				b.WriteString(" ")
 			}
-			canon(b, x)
+			canon(b, x, depth+1)
 		}
 		b.WriteString("]")
 	case *PVal:
@@ -235,7 +247,7 @@ func CanonStore(m map[string]any) string {
 		}
 		b.WriteString(k)
 		b.WriteString("=")
-		canon(&b, m[k])
+		canon(&b, m[k], 0)
 	}
 	b.WriteString("}")
 	return b.String()
